@@ -14,6 +14,7 @@ EfiCase(p) ==
                [op |-> "size_hint", it |-> 0], [op |-> "next", it |-> 0], [op |-> "clone", it |-> 0, to |-> 1]>>
              \o Concat([i \in 1..(EfiNaive(p) + 1) |-> <<[op |-> "len", it |-> 0], [op |-> "next", it |-> 0]>>])
              \o <<[op |-> "len", it |-> 0], [op |-> "size_hint", it |-> 0], [op |-> "next", it |-> 0], [op |-> "len", it |-> 0],    \* after exhaustion
+                  [op |-> "efi_areas", it |-> 4], [op |-> "nth", it |-> 4, n |-> 9], [op |-> "next", it |-> 4], [op |-> "len", it |-> 4],
                   [op |-> "last", it |-> 0], [op |-> "last", it |-> 1], [op |-> "count", it |-> 1], [op |-> "nth", it |-> 1, n |-> 1], [op |-> "len", it |-> 1],
                   [op |-> "len", it |-> 1], [op |-> "next", it |-> 1], [op |-> "size_hint", it |-> 1],
                   [op |-> "dbg", what |-> "efi_mmap"]>>,
